@@ -296,7 +296,7 @@ impl Sweep for Stored {
         "stored-listing-loads-back".into()
     }
     fn shards(&self) -> usize {
-        2
+        3
     }
     fn run_shard(&self, shard: usize, ctx: &mut Ctx) {
         use crate::driver::Session;
@@ -318,6 +318,33 @@ impl Sweep for Stored {
             }
             None
         };
+        if shard == 2 {
+            // crunched lines in which the same reserved word occurs twice (or overlaps another) in one run of letters
+            let words = ["AND", "OR", "XOR", "EQV", "IMP", "MOD", "NOT", "TO", "THEN", "ELSE", "GOTO", "STEP", "FOR", "IF", "ON"];
+            for w in words {
+                for v in words {
+                    for shape in [
+                        format!("10 IFA{}B{}CTHEN1", w, v),
+                        format!("10 X=A{}B{}C{}D", w, v, w),
+                        format!("10 PRINTA{}B{}C", w, v),
+                        format!("10 {}A{}B={}", w, v, w),
+                        format!("10 A{}{}B", w, v),
+                    ] {
+                        for line in [shape.clone(), shape.to_ascii_lowercase()] {
+                            if !ctx.begin(&line) {
+                                continue;
+                            }
+                            ctx.nontrivial(hash64(&(w, v)));
+                            if let Some((sig, detail)) = fidelity(&line) {
+                                ctx.violation(&sig, detail);
+                            }
+                        }
+                    }
+                }
+            }
+            ctx.sample();
+            return;
+        }
         if shard == 0 {
             for c in ["x", "é", "日", "😀"] {
                 for head in ["10 PRINT \"", "10 REM ", "10 A$=\"q\":B$=\""] {
